@@ -484,6 +484,58 @@ package cl
 //@   loop i<len(out): invariant not-after-sign: i >= 1 + signlen(out)
 //@   loop i<len(out): invariant whole-groups: (len(out) - i) % commaint == 0
 
+// the numeric accessors of the number interfaces read their receiver only
+//@ pure-method Integer.RealValue Real.RealValue Integer.IsInt64 Integer.Int64
+
+// ~% ~~ ~| with parameter n write exactly n copies of their character (none
+// for n <= 0) after what was written before, and consume no argument.
+//@ define repeats(b, was, now, n) = len(now) == len(was) + max(n, 0) && (forall j :: (len(was) <= j && j < len(now)) ==> now[j] == b)
+//@ func cl.(*control).dirPercent
+//@   property C15
+//@   no-store argPos
+//@   ensures default-one: len(params) == 0 ==> repeats(10, old(c.out), c.out, 1)
+//@   ensures prefix-kept: forall j :: (0 <= j && j < old(len(c.out))) ==> c.out[j] == old(c.out[j])
+//@   loop 0<n: invariant written: len(c.out) >= old(len(c.out)) && (forall j :: (old(len(c.out)) <= j && j < len(c.out)) ==> c.out[j] == 10) && (forall j :: (0 <= j && j < old(len(c.out))) ==> c.out[j] == old(c.out[j])) && (len(params) == 0 ==> (n >= 0 && len(c.out) + n == old(len(c.out)) + 1))
+//@ func cl.(*control).dirTilde
+//@   property C15
+//@   no-store argPos
+//@   ensures default-one: len(params) == 0 ==> repeats(126, old(c.out), c.out, 1)
+//@   ensures prefix-kept: forall j :: (0 <= j && j < old(len(c.out))) ==> c.out[j] == old(c.out[j])
+//@   loop 0<n: invariant written: len(c.out) >= old(len(c.out)) && (forall j :: (old(len(c.out)) <= j && j < len(c.out)) ==> c.out[j] == 126) && (forall j :: (0 <= j && j < old(len(c.out))) ==> c.out[j] == old(c.out[j])) && (len(params) == 0 ==> (n >= 0 && len(c.out) + n == old(len(c.out)) + 1))
+//@ func cl.(*control).dirPage
+//@   property C15
+//@   no-store argPos
+//@   ensures default-one: len(params) == 0 ==> repeats(12, old(c.out), c.out, 1)
+//@   ensures prefix-kept: forall j :: (0 <= j && j < old(len(c.out))) ==> c.out[j] == old(c.out[j])
+//@   loop 0<n: invariant written: len(c.out) >= old(len(c.out)) && (forall j :: (old(len(c.out)) <= j && j < len(c.out)) ==> c.out[j] == 12) && (forall j :: (0 <= j && j < old(len(c.out))) ==> c.out[j] == old(c.out[j])) && (len(params) == 0 ==> (n >= 0 && len(c.out) + n == old(len(c.out)) + 1))
+
+// ~* moves the argument pointer: forward by n (default 1), back by n with :,
+// to the absolute position n (default 0) with @; it writes nothing.
+//@ func cl.(*control).dirMove
+//@   property C15
+//@   requires sane-position: abs(c.argPos) < 1000000000 && (len(params) > 0 && is(params[0], int) ==> abs(as(params[0], int)) < 1000000000)
+//@   no-store out
+//@   ensures forward-default: (!colon && !at && len(params) == 0) ==> c.argPos == old(c.argPos) + 1
+//@   ensures back-default: (colon && !at && len(params) == 0) ==> c.argPos == old(c.argPos) - 1
+//@   ensures absolute-default: (at && !colon && len(params) == 0) ==> c.argPos == 0
+
+// ~P: looks at the previous argument with :, consumes one otherwise; writes
+// nothing for 1, "s" otherwise ("y" / "ies" with @).
+//@ func cl.(*control).dirP
+//@   property C15
+//@   requires sane-position: abs(c.argPos) < 1000000000
+//@   ensures colon-reuses-argument: colon ==> c.argPos == old(c.argPos)
+//@   ensures consumes-one: !colon ==> c.argPos == old(c.argPos) + 1
+//@   ensures singular-plain: (is(old(c.args[c.argPos - (colon ? 1 : 0)]), slip.Fixnum) && as(old(c.args[c.argPos - (colon ? 1 : 0)]), slip.Fixnum) == 1 && !at) ==> len(c.out) == old(len(c.out))
+//@   ensures plural-plain: (!(is(old(c.args[c.argPos - (colon ? 1 : 0)]), slip.Fixnum) && as(old(c.args[c.argPos - (colon ? 1 : 0)]), slip.Fixnum) == 1) && !at) ==> (len(c.out) == old(len(c.out)) + 1 && c.out[len(c.out) - 1] == 's')
+
+// ~C consumes exactly one argument.
+//@ func cl.(*control).dirC
+//@   property C15
+//@   requires sane-position: abs(c.argPos) < 1000000000
+//@   count-stores argPos
+//@   ensures consumes-one: $nstore_argPos == 1 && c.argPos == old(c.argPos) + 1
+
 // ~[ consumes an argument only when it has no prefix parameter (or a : / @ modifier).
 //@ func cl.(*control).dirCond
 //@   property C15
